@@ -233,8 +233,10 @@ class PsbtDigestsBounded:
     is the BIP143 / BIP341 digest of the transaction the psbt describes"""
 
     def raises_BTClibValueError(inputs, extra_outputs, sp, hash_type):
-        # SIGHASH_SINGLE for an input with no output at its index is refused (BIP341: invalid)
-        return hash_type & 3 == 3 and len(inputs) > len(extra_outputs) + (1 if sp else 0)
+        # SIGHASH_SINGLE for a taproot input with no output at its index is refused (BIP341: invalid);
+        # BIP143 defines that case (hashOutputs = 0), so a p2wpkh input there has a digest
+        nout = len(extra_outputs) + (1 if sp else 0)
+        return hash_type & 3 == 3 and any(taproot and i >= nout for i, (_, taproot) in enumerate(inputs))
 
     def post_digests_are_the_bips(inputs, sequences, lock_time, hash_type, result):
         import hashlib
